@@ -363,3 +363,12 @@ def apply_to_facts(F):
                 F.fns[k] = dict(F.fns[k], body=nb, inlined=sorted(set(inl2.inlined_into[k])))
         report["poly_helpers"] = sorted(poly_helpers)
     return report
+
+
+def owners_of(F, f):
+    """for a polymorphic function entry f: if it is a helper (not in the inventory), the inventory functions it was spliced
+    into - the units its code belongs to after INLINE; otherwise [f].  Used by who-constructs censuses over F.fns."""
+    if not is_helper(f):
+        return [f]
+    me = f.get("path")
+    return [v for k, v in F.fns.items() if not is_helper(v) and me in (v.get("inlined") or [])]
